@@ -183,9 +183,9 @@ func famConc(o *Out, r R, tier string) {
 								want := serveOnce(ref, q, http.Header{})
 								got, dead := serveInjected(m, q, http.Header{}, pt.point, pt.n, func() { op.f(m) })
 								desc := fmt.Sprintf("%s at %s#%d from state %d(debug=%v) to %d on %s", op.name, pt.point, pt.n, si, dbgFrom, ti, str(q.sx()))
-								if dead {
+								if dead { // one deadlock settles the matter; every further injected run would wait for its timeout too
 									o.emitDirect("conc-deadlock", false, desc)
-									continue
+									return
 								}
 								ok := str(want.sx()) == str(got.sx()) && !got.panicked
 								o.emitDirect("conc-inject/"+op.name+"/"+pt.point, ok, desc+" want "+str(want.sx())+" got "+str(got.sx()))
